@@ -219,6 +219,7 @@ class Interp:
         self.stubs = {}               # (module, qualname) -> callable(interp, fv, args, kwargs)
         self.loop_cuts = {}           # function qualname -> iterations after which the path is cut (induction)
         self.loop_specs = {}          # (function qualname, loop ordinal) -> LoopSpec (inductive invariant)
+        self.fn_summaries = {}        # function qualname -> FnSummary (callee contract used instead of the body)
         self.call_trace = []
 
     # ------------------------------------------------------------------ lifting real objects
@@ -319,6 +320,26 @@ class Interp:
         stub = self.stubs.get(key)
         if stub is not None:
             return stub(self, fv, args, kwargs)
+        summ = self.fn_summaries.get(fd.qualname) if self.ctx.mode == "sym" else None
+        if summ is not None:
+            active = self.__dict__.setdefault("_summ_active", {})
+            if active.get(fd.qualname, 0) >= summ.inline_depth:
+                # modular step: the call is replaced by the callee's contract (pre-condition becomes an obligation at this
+                # call site, the post-condition is all that is known afterwards); the contract itself is proved on the
+                # real body by the contract class named in summ.proved_by
+                pre = summ.pre(self, args, kwargs)
+                for nm, c in (pre.items() if isinstance(pre, dict) else [("", pre)]):
+                    self.ctx.side_obligations.append(("call-pre:%s:%s" % (fd.qualname, nm), truth_val(c), list(self.ctx.pc)))
+                self.ctx.notes.append("call of %s replaced by its contract (proved by %s)" % (fd.qualname, summ.proved_by))
+                return summ.apply(self, args, kwargs)
+            active[fd.qualname] = active.get(fd.qualname, 0) + 1
+            try:
+                return self._call_body(fd, fv, args, kwargs)
+            finally:
+                active[fd.qualname] -= 1
+        return self._call_body(fd, fv, args, kwargs)
+
+    def _call_body(self, fd, fv, args, kwargs):
         node = fd.node
         for d in node.decorator_list:
             dn = ast.unparse(d)
@@ -1963,6 +1984,20 @@ class Interp:
                 o.sym[i] = (kk, v)
                 return
         o.sym.append((k, v))
+
+
+class FnSummary:
+    """contract of a callee used at its call sites instead of its body: pre(interp, args, kwargs) -> {name: conjunct}
+    (obligations at the call site), apply(interp, args, kwargs) -> result: havocs what the callee may modify, assumes
+    the post-condition, may raise (fork).  inline_depth: number of active frames of the function that still run the
+    real body (1: the outermost call is executed, recursive calls use the contract; 0: every call uses the contract).
+    proved_by: id of the contract class that proves the post-condition on the real body."""
+
+    def __init__(self, pre, apply, inline_depth=0, proved_by=None):
+        self.pre = pre
+        self.apply = apply
+        self.inline_depth = inline_depth
+        self.proved_by = proved_by
 
 
 class LoopSpec:
